@@ -283,6 +283,7 @@ func GenBatch(t Target, prop string, seed uint64, n int, outdir string, nenum in
 	if prop == "C15" {
 		total = n + 1
 	}
+	lastOut := ""
 	for i := 0; i < total; i++ {
 		src := choice.New(choice.Mix(seed^0x9e3779b97f4a7c15, uint64(i)))
 		var cfg *gen.Cfg
@@ -331,7 +332,15 @@ func GenBatch(t Target, prop string, seed uint64, n int, outdir string, nenum in
 			w.Flags = append(w.Flags, "--stub")
 			stubFlag = true
 		}
+		if prop != "C15" && lastOut != "" && src.Chance("prevout", 1, 3) {
+			// the same -o was written a moment ago by a successful build of another configuration with the same
+			// binary (the inputs are older than that file): the verdict is about this configuration all the same
+			w.PreOut = &InFile{Path: w.Out, Content: lastOut, Mode: 0644}
+		}
 		r := Exec(t, w)
+		if r.Exit == 0 && r.Out.Exists {
+			lastOut = r.Out.Data
+		}
 		out.Builds++
 		if v := verdict(prop, w, r); v != nil {
 			v.Seed, v.Index = seed, i
